@@ -88,6 +88,12 @@ CHECKS.update({
                           "64 KiB buffer, bursts of B-1, B, B+1, 2B+1 bytes, 1000 frames per record); Mon_C18 (TLC) checks: no block with decrypted or unconsumed data, every message event and automatic "
                           "Pong at the virtual time its last byte arrived.",
             "level_note": _NOTE + "The kernel/OpenSSL behaviour is modelled (record <= buffer, bursts of whole records, short TLS reads); the real-loopback supplement planned in the design is not built."},
+    "C06": {"technique": "explicit block-granular TLA+ model of permessage-deflate (spec/Deflate.tla) checked by TLC (Lossless, ContextsInSync for every window / takeover combination; a window mismatch is found when the client ignores the negotiation); TLC-generated message histories replayed into the real code against an independent zlib RFC 7692 peer; traces judged by the TLA+ monitor Mon_C06 evaluated by TLC",
+            "level_text": "TLC checks the LZ77/window/context-takeover model in both directions for every combination of windows and takeover flags and generates message histories (interleaved directions, "
+                          "compressed/uncompressed, fragmentation); the harness runs each history under all 8x8x2x2 negotiated configurations (several spellings of the extension header), concretising "
+                          "blocks so that repeats lie just inside every window in play; an independent zlib endpoint honouring the parameters over the whole history compresses the server's messages and "
+                          "inflates the client's frames in wire order; Mon_C06 (TLC) checks exact restoration both ways, never wrong content, RSV1 only with negotiation and compress=True.",
+            "level_note": _NOTE + "Bit-level DEFLATE is outside TLA+: decided by the zlib peer (trusted). 4 (quick) / 12 histories per configuration."},
     "C14": _sess("Mon_C14", "pongs = answerable pings (payload, order, multiplicity), each written before its Ping event; none with auto_pong off; failing pong writes do not disturb the event stream (twin run)",
                  "<= 3 (quick) / 4 frames incl. 125-byte all-byte-values ping blobs, several items per read, application send/close reactions, failing writes."),
 })
